@@ -119,7 +119,7 @@ def check_match(case):
             nb = [j for j in (i - 1, i + 1) if 0 <= j < len(targets)]
             for j in nb:
                 a2, b2 = fidx[j], fidx[j + 1]
-                loc = max(loc, 1e-6 * max(abs(targets[j]), float(ref_abs[j]), math.fsum(abs(zf[q]) * (x[q + 1] - x[q]) for q in range(a2, b2))))
+                loc = max(loc, 1e-4 * max(abs(targets[j]), float(ref_abs[j]), math.fsum(abs(zf[q]) * (x[q + 1] - x[q]) for q in range(a2, b2))))
         if abs(float(got - t)) > 1e-9 * loc:
             fails.append(fail("C01:interval-integral", {"interval": i, "samples": [a, b], "expected": float(t),
                                                         "observed": float(got), "fixed": fidx, "ref_idx": ridx}, key))
